@@ -20,7 +20,7 @@ ANCHORS = ['phylib.io.model:TemplateModel._load_data', 'phylib.io.model:Template
            'phylib.io.model:get_template_params', 'phylib.io.model:load_model',
            'phylib.utils._misc:read_python']
 AXES = {
-    'names': ['ks', 'alf'], 'vec2d': [False, True], 'clusters': ['absent', 'same', 'curated'],
+    'names': ['ks', 'alf'], 'vec2d': [False, True, 'row'], 'clusters': ['absent', 'same', 'curated'],
     'amps': [True, False], 'wm': [True, False], 'wmi_file': [False, True], 'shanks': [0, 2],
     'probes': [False, True], 'features': ['none', 'dense', 'sparse', 'sparse_rows'],
     'tfeatures': [False, True], 'similar': [False, True], 'raw': ['none', 'int16', 'float32'],
@@ -346,6 +346,11 @@ def _compare(m, spec, o, case, ctx, feats):
             ctx.violation('attribute_mismatch', case, 'duration %r != %r' % (m.duration, n / rate),
                           dict(feats, attr='duration'))
         items = [0, -1, n - 1, slice(None), slice(1, n // 2 + 1), slice(-3, None), slice(n // 3, -1)]
+        # history on the model's reader: views are derived from it (a channel subset, a scaled copy) and read;
+        # the reader itself must go on denoting the raw file
+        call(lambda: m.traces[0:2, [0]])
+        call(lambda: (m.traces * 2)[0:2])
+        call(lambda: m.traces[:, ::-1][0:1])
         for p in np.cumsum(spec.raw_parts or [n])[:-1].tolist():
             items += [p, p - 1, slice(max(0, p - 2), min(n, p + 2))]
         for it in items:
